@@ -3,9 +3,13 @@
    asm.cli_main on every run (Gen/Cli.v); [run_cli] is its interpreter over the abstract file system
    (Model/Cli.v); the assembler is ANY function that may fail (failure = an exception from any pass),
    bin2hex is ANY function with the round-trip property for the run at hand ([roundtrip_for_run], implied by
-   [bin2hex_roundtrip]; the harness checks it on every hex file the real CLI writes, with Spec.Hex.hex_decode). *)
+   [bin2hex_roundtrip]; the harness checks it on every hex file the real CLI writes, with Spec.Hex.hex_decode).
+   Second part (below): that hypothesis is a THEOREM of the writer model Model.HexWriter.bin2hex_model
+   (C17_hex_roundtrip, Proofs/HexRoundTrip.v), and the CLI theorems are restated with the writer in place of the
+   parameter (C17_no_clobber_hex, C17_success_hex, Proofs/CliHex.v). *)
 From Coq Require Import ZArith List String.
-From BB Require Import Base.PyBase Gen.Cli Spec.Hex Model.Reader Model.Cli Proofs.CliOrder.
+From BB Require Import Base.PyBase Gen.Cli Spec.Hex Model.Reader Model.Cli Model.HexWriter
+                       Proofs.CliOrder Proofs.HexRoundTrip Proofs.CliHex.
 Import ListNotations.
 Open Scope string_scope.
 Open Scope Z_scope.
@@ -93,4 +97,89 @@ Example C17_no_clobber_hypotheses_met :
 Proof.
   split; [vm_compute; reflexivity | split; [vm_compute; reflexivity |]].
   intros off bin labels Ho. vm_compute in Ho. discriminate.
+Qed.
+
+(* ====================================================================================================== *)
+(* The HEX half without a hypothesis: the writer model Model.HexWriter.bin2hex_model (intelhex.bin2hex; tied to the
+   installed package text for text by the correspondence of the check) against the independent decoder Spec.Hex. *)
+
+(* the text bin2hex writes for ANY bytes at ANY offset that fits the 32-bit address space decodes to exactly these
+   bytes at offset, offset + 1, ... in this order and nothing else (the decoder returns the list of (address, byte)
+   pairs in file order, None for a malformed file); empty input and offset + len = 2^32 included *)
+Theorem C17_hex_roundtrip :
+  forall (bytes : list Z) (offset : Z),
+    Forall (fun b => 0 <= b < 256) bytes -> 0 <= offset -> offset + Z.of_nat (List.length bytes) <= 2^32 ->
+    hex_decode (bin2hex_model bytes offset) = Some (place_l offset bytes).
+Proof. exact bin2hex_roundtrip_model. Qed.
+Print Assumptions C17_hex_roundtrip.
+
+(* in the shape of the CLI model: the writer meets the hypothesis of C17_no_clobber / C17_success *)
+Theorem C17_writer_meets_hypothesis : bin2hex_roundtrip bin2hex_fn.
+Proof. exact bin2hex_fn_roundtrip. Qed.
+Print Assumptions C17_writer_meets_hypothesis.
+
+(* the CLI theorems with the writer model in place of the bin2hex parameter: no hypothesis about bin2hex is left *)
+Theorem C17_no_clobber_hex :
+  forall (assemble : fsys -> string -> string -> bool -> list string -> option (string * list (string * Z)))
+         (defs_dir cwd : string) (o : opts) (fs fs' : fsys) (code : Z),
+    run_cli assemble bin2hex_fn defs_dir cli_steps cwd o fs = (fs', code) ->
+    code <> 0 -> fs' = fs.
+Proof. exact cli_no_clobber_hex. Qed.
+Print Assumptions C17_no_clobber_hex.
+
+(* exit 0: the assembler succeeded; with --hex-offset the .hex file holds exactly the writer's text for the assembled
+   bytes at the parsed offset (written last: no aliasing hypothesis needed) and that text decodes to the same bytes
+   placed at that offset; -o and -l as in C17_success *)
+Theorem C17_success_hex :
+  forall (assemble : fsys -> string -> string -> bool -> list string -> option (string * list (string * Z)))
+         (defs_dir cwd : string) (o : opts) (fs fs' : fsys),
+    run_cli assemble bin2hex_fn defs_dir cli_steps cwd o fs = (fs', 0) ->
+    exists bin labels,
+      assemble fs cwd (abspath cwd (o_input o)) (o_compress o) (cli_dirs defs_dir cwd o) = Some (bin, labels) /\
+      (o_hex o <> "" -> exists off,
+          py_int_lit (o_hex o) = Some off /\
+          file_at fs' cwd (o_output o ++ ".hex") = Some (bin2hex_model (bytes_of bin) off) /\
+          hex_decode (bin2hex_model (bytes_of bin) off) = Some (place off bin)) /\
+      (distinct_outputs cwd o ->
+         file_at fs' cwd (o_output o) = Some bin /\
+         (o_labels o <> "" -> file_at fs' cwd (o_labels o) = Some (render_labels labels))).
+Proof. exact cli_success_hex. Qed.
+Print Assumptions C17_success_hex.
+
+(* ---- non-vacuity: 20 bytes at 0xFFF8 cross the 64 KiB line.  The writer puts a type-04 record in front of EACH
+   block, the first one (upper half 0000) included, because the last byte lies above 0xFFFF; the data record is cut
+   at the line (8 + 12 bytes) *)
+Definition ex_bytes20 : list Z := [0;1;2;3;4;5;6;7;8;9;10;11;12;13;14;15;16;17;18;19].
+Example C17_hex_roundtrip_instance :
+  bin2hex_model ex_bytes20 0xFFF8 =
+    ":020000040000FA" ++ bs [10] ++ ":08FFF8000001020304050607E5" ++ bs [10] ++
+    ":020000040001F9" ++ bs [10] ++ ":0C00000008090A0B0C0D0E0F1011121352" ++ bs [10] ++ ":00000001FF" ++ bs [10] /\
+  hex_decode (bin2hex_model ex_bytes20 0xFFF8) = Some (place_l 0xFFF8 ex_bytes20) /\
+  (* the same 20 bytes wholly below the line: no type-04 record at all, records counted from the (unaligned) offset *)
+  bin2hex_model ex_bytes20 0xFFEC =
+    ":10FFEC00000102030405060708090A0B0C0D0E0F8D" ++ bs [10] ++ ":04FFFC0010111213BB" ++ bs [10] ++ ":00000001FF" ++ bs [10] /\
+  (* an empty binary, and the very top of the address space (offset + len = 2^32) *)
+  bin2hex_model [] 0x08000000 = ":00000001FF" ++ bs [10] /\
+  hex_decode (bin2hex_model [] 0x08000000) = Some [] /\
+  bin2hex_model [0;1;2] (2^32 - 3) = ":02000004FFFFFC" ++ bs [10] ++ ":03FFFD00000102FE" ++ bs [10] ++ ":00000001FF" ++ bs [10] /\
+  hex_decode (bin2hex_model [0;1;2] (2^32 - 3)) = Some [(4294967293, 0); (4294967294, 1); (4294967295, 2)].
+Proof. vm_compute. repeat split; reflexivity. Qed.
+
+(* a whole run with the writer model: the example program at 0x08000000 gives the hex text the real tools produced
+   (ex_hex above), a failing assembler leaves the old files alone *)
+Example C17_success_hex_hypotheses_met :
+  snd (run_cli ex_asm_ok bin2hex_fn "/pkg/definitions" cli_steps "/w" (ex_opts "0x08000000") ex_fs) = 0 /\
+  file_at (fst (run_cli ex_asm_ok bin2hex_fn "/pkg/definitions" cli_steps "/w" (ex_opts "0x08000000") ex_fs))
+          "/w" "out.bin.hex" = Some ex_hex /\
+  bin2hex_model (bytes_of ex_bin) 0x08000000 = ex_hex /\
+  distinct_outputs "/w" (ex_opts "0x08000000") /\
+  run_cli ex_asm_fail bin2hex_fn "/pkg/definitions" cli_steps "/w" (ex_opts "0x08000000") ex_fs = (ex_fs, 1) /\
+  (* the offset fits but offset + len does not: refused before anything is written *)
+  run_cli ex_asm_ok bin2hex_fn "/pkg/definitions" cli_steps "/w" (ex_opts "0xFFFFFFFC") ex_fs = (ex_fs, 1).
+Proof.
+  split; [vm_compute; reflexivity |].
+  split; [vm_compute; reflexivity |].
+  split; [vm_compute; reflexivity |].
+  split; [repeat split; intros; vm_compute; discriminate |].
+  split; vm_compute; reflexivity.
 Qed.
